@@ -704,7 +704,7 @@ class TS:
         elif q == Q_PUSH and len(args) == 2:
             ev = ("PERSIST", s, fn.q, b) if self.task_tracked(fr, args[1], env) else ("PUSH_OTHER", fn.q, b)
         elif q == Q_SCHED:
-            ev = ("SCHED", fn.q, b)
+            ev = ("SCHED", fn.q, b, self._sched_kind(fn, args))
         elif self.effect_callees is not None and self.effect_callees.search(q):
             ev = ("EFFECT", q, fn.q, b)
         elif TRY_BRANCH.search(q) and args:
@@ -845,6 +845,22 @@ class TS:
                 push(nxt, s=S, cok=cok2, mon=mon3, env=env2, ev=hev if S != s2 else ev)
             return
         push(nxt, s=s2, cok=cok2, mon=mon2, env=env2, ev=ev)
+
+    def _sched_kind(self, fn, args):
+        """what is scheduled: a `child` node (element of node.children()/children_in()) or the `next` node"""
+        if len(args) < 2:
+            return "?"
+        r = self.pa.root(fn, args[1])
+        if r[0] == "call":
+            if r[1].endswith("Node::next") or "Weak" in r[1]:
+                return "next"
+            src = self.pa.iter_source(fn, ("call", r[1], r[2], ()))
+            if src is not None and src[0][0] == "call":
+                if re.search(r"Node::children(_in)?$", src[0][1]):
+                    return "child"
+        if r[0] == "local":
+            return "next"
+        return "?"
 
     def _closure_frame(self, fr, fn, rc, cf, env, nxt, b, env2):
         # which captured variables denote the tracked task / ctx
